@@ -82,9 +82,16 @@ func (cmd *search) Execute(_ context.Context, f *flag.FlagSet, _ ...interface{})
 	if cmd.verbose {
 		ex.SetLogger(cmd.Log)
 	}
-	ex.SetConcurrency(cmd.concurrency)
-
 	as := ensemble.Ensemble()
+
+	// Running more algorithms at once than there are gains nothing, and the
+	// executor's completion barrier takes time proportional to the limit.
+	concurrency := cmd.concurrency
+	if concurrency > len(as) {
+		concurrency = len(as)
+	}
+	ex.SetConcurrency(concurrency)
+
 	rs := ex.Execute(n, as)
 
 	// Report results.
